@@ -321,6 +321,9 @@ var ruleTermination = &core.Rule{ID: "R01.4", Min: 55,
 				for _, in := range b.Instrs {
 					switch in.(type) {
 					case *ssa.Next:
+						if rg, ok := in.(*ssa.Next).Iter.(*ssa.Range); ok && mapClearLoop(rg) {
+							continue
+						}
 						s.Bad(core.FName(f)+": iterator loop", c.Pos(in.Pos()), "range over a map / string iterator / channel in module code is not covered by the termination argument")
 					case *ssa.Go, *ssa.Select, *ssa.Send:
 						s.Bad(core.FName(f)+": concurrency construct", c.Pos(in.Pos()), "go / select / send in module code")
@@ -336,6 +339,14 @@ func namedLoop(c *core.Ctx, wm *walkModel, l e2.LoopRes) (string, bool) {
 	h := l.Header
 	f := l.Fn
 	body := loopBlocks(h)
+	// clearing a map by ranging over it: the range visits each key present at most once, the body only deletes it
+	for _, in := range h.Instrs {
+		if nx, ok := in.(*ssa.Next); ok {
+			if rg, ok := nx.Iter.(*ssa.Range); ok && mapClearLoop(rg) {
+				return "map cleared by ranging over it (each key visited at most once, deleted)", true
+			}
+		}
+	}
 	// external iterators: the loop contains a call to the iterator and every back edge is
 	// reachable only when the iterator did not report its terminal value
 	// only calls whose innermost enclosing loop is this one (nested loops are judged on their own)
@@ -788,6 +799,50 @@ func capturedFuncList(f *ssa.Function, list ssa.Value) (why string, isList bool)
 		return "no construction found", true
 	}
 	return "", true
+}
+
+// mapClearLoop: `for k := range m { delete(m, k) }`: the only uses of the
+// iterator are its Next, the body deletes exactly the current key from the same
+// map and does nothing else.
+func mapClearLoop(rg *ssa.Range) bool {
+	if _, isMap := rg.X.Type().Underlying().(*types.Map); !isMap {
+		return false
+	}
+	var next *ssa.Next
+	for _, ref := range *rg.Referrers() {
+		switch x := ref.(type) {
+		case *ssa.Next:
+			if next != nil {
+				return false
+			}
+			next = x
+		case *ssa.DebugRef:
+		default:
+			return false
+		}
+	}
+	if next == nil {
+		return false
+	}
+	hdr := next.Block()
+	for blk := range loopBlocks(hdr) {
+		for _, in := range blk.Instrs {
+			switch x := in.(type) {
+			case *ssa.Next, *ssa.Extract, *ssa.If, *ssa.Jump, *ssa.DebugRef, *ssa.Phi:
+			case *ssa.Call:
+				if !core.IsBuiltin(&x.Call, "delete") || x.Call.Args[0] != rg.X {
+					return false
+				}
+				ex, ok := x.Call.Args[1].(*ssa.Extract)
+				if !ok || ex.Tuple != ssa.Value(next) || ex.Index != 1 {
+					return false
+				}
+			default:
+				return false
+			}
+		}
+	}
+	return true
 }
 
 // upwardModel: the walk model, for its notion of "parent of" (field load or
